@@ -90,3 +90,17 @@ func TestQuantileAndGL(t *testing.T) {
 		t.Errorf("GL20: %v vs %v", got, want)
 	}
 }
+
+func TestTSeries(t *testing.T) {
+	for _, nu := range []int{1, 2, 3, 10, 39, 1000} {
+		for _, x := range []float64{-0.4, -1e-3, -1e-9, 1e-12, 1e-7, 1e-3, 0.3, 0.49} {
+			if x*x > float64(nu)/4 {
+				continue
+			}
+			got, want := TCDFSeries(x, float64(nu)), ToF(TCDFInt(x, nu))
+			if math.Abs(got-want) > 1e-12 {
+				t.Errorf("nu=%d x=%v: series %v closed form %v", nu, x, got, want)
+			}
+		}
+	}
+}
